@@ -674,6 +674,640 @@ def nf_neighbours(case):
             yield c
 
 
+# ------------------------------------------------------------------------------------------------------------------------
+# stream:selhist -- selections INSIDE histories, on every binning kind (oracle only: the driver's `getitem` / `select` know
+# plain ranges and integers on static / fixed-width axes -- see stream:selhist_model below for those)
+#
+# 1-D / N-d histograms (Histogram1D, Histogram2D, HistogramND, transformed N-d classes) whose axes come from the public binning
+# functions (fixed_width -- adaptive or not --, integer, pretty, numpy, static incl. gapped, exponential); index expressions
+# occur as operations: slices with steps > 1, plain ranges, integers, negative steps, masks / index arrays / lists, Ellipsis,
+# empty selections, through `H[...]` (bare or tuple) and `H.select(axis, ...)` -- followed by MORE operations on the results
+# (fill / fill_n at points taken from the bins the object shows, `+`, `+=`, `*`, merge_bins, projection, copy, another
+# selection).  The later operations address whatever the histogram looks like when they run (points are given as fractions
+# of the bin range of each axis), so every case is well-formed whatever the library answered before.
+# Demanded (property text): after every step every live histogram is well-formed -- frequencies.shape == errors2.shape ==
+# (number of bins of axis i)_i == h.shape, per-axis bin_count agrees, bins rising, dtype facts, nothing negative -- and a
+# refused operation (the library refuses masks on N-d, any step in 1-D, negative steps, ...) leaves every content per bin
+# interval, squared error, missed count where it was.  A slice selection has numpy's number of entries along each axis.
+SH_SHARE_K = 1                 # k % 10 == SH_SHARE_K: stream:selhist;  k % 20 == 5: stream:selhist_model
+SH_KINDS = ["fixed_width", "fixed_width_adaptive", "integer", "pretty", "numpy", "static", "static_gapped", "exponential"]
+SH_KLASS2 = [None, None, None, "HistogramND", "PolarHistogram", "CylindricalSurfaceHistogram", "SphericalSurfaceHistogram"]
+SH_KLASS3 = [None, None, "CylindricalHistogram", "SphericalHistogram"]
+
+
+def _sh_binning(spec, col):
+    from physt import binnings as B
+    from ..impl1 import fl
+    k = spec["kind"]
+    if k in ("fixed_width", "fixed_width_adaptive"):
+        return B.fixed_width_binning(data=col, bin_width=fl(spec["w"]), adaptive=(k == "fixed_width_adaptive"))
+    if k == "integer":
+        return B.integer_binning(data=col)
+    if k == "pretty":
+        return B.pretty_binning(data=col, bin_count=spec["n"])
+    if k == "numpy":
+        return B.numpy_binning(data=col, bins=spec["n"])
+    if k == "exponential":
+        return B.exponential_binning(data=col, bin_count=spec["n"])
+    if k in ("static", "static_gapped"):
+        return B.StaticBinning(np.array([[fl(l), fl(r)] for l, r in spec["pairs"]], dtype=float))
+    raise KeyError(k)
+
+
+def _sh_index(sub, n):
+    """one sub-index of the case -> the Python object handed to the library (n: bins of the axis it addresses, as shown)"""
+    if isinstance(sub, dict):
+        if "s" in sub:
+            return slice(*sub["s"])
+        if "mask" in sub:
+            m = np.arange(n) % 2 == 0
+            return m if sub["mask"] == "array" else m.tolist()
+        if "arr" in sub:
+            return np.array([i for i in sub["arr"] if i < max(n, 1)], dtype=int)
+        if "list" in sub:
+            return [i for i in sub["list"] if i < max(n, 1)]
+        raise KeyError(str(sub))
+    if sub == "ellipsis":
+        return Ellipsis
+    return int(sub)
+
+
+def sh_snap(x):
+    from .. import implnd
+    from physt.histogram1d import Histogram1D
+    try:
+        s = implnd.snapn(x)
+        s["_hshape"] = [int(v) for v in x.shape]
+        bs = [x.binning] if isinstance(x, Histogram1D) else list(x.binnings)
+        s["_nbins"] = [int(b.bin_count) for b in bs]
+        s["_binning_kinds"] = [type(b).__name__ for b in bs]
+        return s
+    except Exception as e:          # a histogram that cannot even be read through its public attributes
+        return {"_snap_error": f"{type(e).__name__}: {e}"[:200]}
+
+
+def _sh_axes_of(x):
+    from physt.histogram1d import Histogram1D
+    bins = [np.asarray(x.bins).reshape(-1, 2)] if isinstance(x, Histogram1D) else [np.asarray(b).reshape(-1, 2) for b in x.bins]
+    return bins
+
+
+def _sh_points(x, us, outside):
+    """points inside the bins `x` shows: u in [0, 1) picks the bin of each axis, the point is its midpoint (outside: beyond the
+    last edge of the first axis)"""
+    axes = _sh_axes_of(x)
+    pts = []
+    for u in us:
+        p = []
+        for a, bb in enumerate(axes):
+            if len(bb) == 0:
+                p.append(1.0)
+                continue
+            i = min(int(u[a % len(u)] * len(bb)), len(bb) - 1)
+            p.append(float((bb[i][0] + bb[i][1]) / 2))
+        if outside and len(axes[0]):
+            p[0] = float(axes[0][-1][1] + 3 * (axes[0][-1][1] - axes[0][-1][0]))
+        pts.append(p)
+    return pts
+
+
+def sh_step(s, op, log):
+    from .. import impl1, implnd
+    from ..impl1 import fl
+    from physt.histogram1d import Histogram1D
+    name = op["op"]
+
+    def reg(i):
+        return s.regs[i] if 0 <= i < len(s.regs) else None
+
+    for key in ("h", "a", "b", "o"):
+        if key in op and reg(op[key]) is None:
+            log.append(f"{name}: register {op[key]} does not exist")
+            return impl1.REFUSED
+    if name == "sh_make":
+        rows = np.array([[fl(v) for v in r] for r in op["rows"]], dtype=float)
+        d = len(op["axes"])
+        ws = None if op.get("ws") is None else np.array([fl(w) for w in op["ws"]], dtype=float)
+
+        def call():
+            import physt
+            bs = [_sh_binning(spec, rows[:, a]) for a, spec in enumerate(op["axes"])]
+            if d == 1:
+                r = Histogram1D(bs[0], dtype=None if ws is None else np.dtype("float64"))
+                r.fill_n(rows[:, 0], ws)
+            elif op.get("klass"):
+                r = implnd.special_class(op["klass"])(bs)
+                r.fill_n(rows, ws, **({} if op["klass"] == "HistogramND" else {"transformed": True}))
+            elif op.get("via") == "h":
+                r = physt.h(rows, bs, weights=ws)
+            else:
+                from physt.histogram_nd import Histogram2D, HistogramND
+                r = (Histogram2D if d == 2 else HistogramND)(bs)
+                r.fill_n(rows, ws)
+            s.set(op["out"], r)
+    elif name == "sh_sel":
+        x = reg(op["h"])
+        shape = list(x.shape)
+        if op["how"] == "select":
+            ax = op["axis"] % max(x.ndim, 1)
+            idx = _sh_index(op["index"][0], shape[ax] if shape else 0)
+
+            def call():
+                r = x.select(ax, idx)
+                if isinstance(r, tuple):                    # one bin of a 1-D histogram: (edges, content)
+                    return
+                s.set(op["out"], r)
+        else:
+            subs = [_sh_index(j, shape[i] if i < len(shape) else 0) for i, j in enumerate(op["index"])]
+            idx = subs[0] if op.get("bare") and len(subs) == 1 else tuple(subs)
+
+            def call():
+                r = x[idx]
+                if isinstance(r, tuple):
+                    return
+                s.set(op["out"], r)
+    elif name == "sh_fill":
+        x = reg(op["h"])
+        pts = _sh_points(x, op["u"], op.get("outside", False))
+        one_d = isinstance(x, Histogram1D)
+        ws = None if op.get("ws") is None else np.array([fl(w) for w in op["ws"]][:len(pts)], dtype=float)
+
+        from physt.special_histograms import TransformedHistogramMixin
+        tkw = {"transformed": True} if isinstance(x, TransformedHistogramMixin) else {}     # the points are bin coordinates
+
+        def call():
+            if op.get("single"):
+                x.fill(pts[0][0] if one_d else pts[0], **({} if ws is None else {"weight": float(ws[0])}), **tkw)
+            else:
+                data = np.array(pts, dtype=float)
+                x.fill_n(data[:, 0] if one_d else data, ws, **tkw)
+    elif name == "sh_add":
+        a, b = reg(op["a"]), reg(op["b"])
+
+        def call():
+            if op.get("inplace"):
+                y = a
+                y += b
+                s.set(op["a"], y)
+            else:
+                s.set(op["out"], a + b)
+    elif name == "sh_scale":
+        x = reg(op["h"])
+        c = impl1.num_of(op["c"], op["k"])
+
+        def call():
+            if op.get("inplace"):
+                y = x
+                y *= c
+                s.set(op["h"], y)
+            else:
+                s.set(op["out"], (c * x) if op.get("reflected") else (x * c))
+    elif name == "sh_merge":
+        x = reg(op["h"])
+
+        def call():
+            kw = {} if isinstance(x, Histogram1D) else {"axis": op["axis"] % x.ndim}
+            r = x.merge_bins(op["amount"], inplace=op.get("inplace", False), **kw)
+            if not op.get("inplace", False):
+                s.set(op["out"], r)
+    elif name == "sh_proj":
+        x = reg(op["h"])
+
+        def call():
+            s.set(op["out"], x.projection(op["axis"] % max(x.ndim, 1)))
+    elif name == "sh_copy":
+        x = reg(op["h"])
+
+        def call():
+            s.set(op["out"], x.copy())
+    else:
+        raise KeyError(name)
+    try:
+        call()
+        return "ok"
+    except KeyError:
+        raise
+    except Exception as e:
+        log.append(f"{name}: {type(e).__name__}: {e}"[:200])
+        return impl1.REFUSED
+
+
+def sh_run(case):
+    from .. import impl1
+    s = impl1.Store()
+    outs, log = [], []
+    for op in case["ops"]:
+        ret = sh_step(s, op, log)
+        outs.append({"ret": ret, "regs": [None if h is None else sh_snap(h) for h in s.regs]})
+    return {"outs": outs, "log": log}
+
+
+# ---- generation
+def _sh_axis_spec(rng, kind):
+    if kind in ("fixed_width", "fixed_width_adaptive"):
+        return {"kind": kind, "w": rs(rng.choice([1.0, 1.0, 0.5, 2.0]))}
+    if kind in ("pretty", "numpy", "exponential"):
+        return {"kind": kind, "n": rng.randint(4, 7)}
+    if kind == "integer":
+        return {"kind": kind}
+    nb = rng.randint(4, 7)
+    e = [0.0]
+    for _ in range(nb):
+        e.append(e[-1] + rng.choice([1.0, 1.5, 2.0, 0.5]))
+    e = [x * 7.5 / e[-1] for x in e] if rng.random() < 0.3 else e
+    pairs = [[e[i], e[i + 1]] for i in range(nb)]
+    if kind == "static_gapped":
+        j = rng.randrange(1, nb)
+        pairs[j][0] = (pairs[j][0] + pairs[j][1]) / 2            # a gap before bin j
+    return {"kind": kind, "pairs": [[rs(l), rs(r)] for l, r in pairs]}
+
+
+def _sh_slice(rng, stepped):
+    """[start, stop, step] of a selection along one axis (4 .. 14 bins)"""
+    if stepped:
+        return [rng.choice([None, None, 0, 1, 2]), rng.choice([None, None, None, -1, 6, 5]), rng.choice([2, 2, 2, 3, 100])]
+    r = rng.random()
+    if r < 0.15:
+        return rng.choice([[2, 2, None], [3, 1, None], [50, None, None], [1, 1, 1]])          # empty
+    return [rng.choice([None, 0, 1, 2, -3]), rng.choice([None, None, 3, 4, -1]), rng.choice([None, None, 1])]
+
+
+def _sh_sub(rng, form):
+    if form == "stepped":
+        return {"s": _sh_slice(rng, True)}
+    if form == "range":
+        return {"s": _sh_slice(rng, False)}
+    if form == "int":
+        return rng.choice([0, 1, -1, 2, 3, 40])
+    if form == "neg_step":
+        return {"s": [None, None, rng.choice([-1, -2])]}
+    if form == "mask":
+        return {"mask": rng.choice(["array", "list"])}
+    if form == "arr":
+        return {"arr": sorted(rng.sample(range(5), rng.randint(0, 3)))}
+    if form == "list":
+        return {"list": sorted(rng.sample(range(5), rng.randint(1, 3)))}
+    if form == "all":
+        return {"s": [None, None, None]}
+    if form == "ellipsis":
+        return "ellipsis"
+    raise KeyError(form)
+
+
+SH_FORMS = ["stepped", "stepped", "stepped", "stepped", "range", "range", "int", "neg_step", "mask", "arr", "list", "ellipsis"]
+
+
+def _sh_sel_op(rng, h, out, d, form=None, axis=None):
+    form = form or rng.choice(SH_FORMS)
+    axis = rng.randrange(max(d, 1)) if axis is None else axis
+    how = rng.choice(["getitem", "getitem", "select"]) if d > 1 else "getitem"
+    if how == "select":
+        return {"op": "sh_sel", "h": h, "out": out, "how": "select", "axis": axis, "index": [_sh_sub(rng, form)], "form": form}
+    if d > 1:
+        index = [_sh_sub(rng, "all") for _ in range(axis)] + [_sh_sub(rng, form)]
+        for _ in range(axis + 1, d):                        # the axes after it: left out, everything, or selected as well
+            r = rng.random()
+            if r < 0.4:
+                break
+            index.append(_sh_sub(rng, "all" if r < 0.7 else rng.choice(["stepped", "range", "int"])))
+        bare = len(index) == 1 and rng.random() < 0.5
+    else:
+        index, bare = [_sh_sub(rng, form)], True
+    return {"op": "sh_sel", "h": h, "out": out, "how": "getitem", "index": index, "bare": bare, "form": form}
+
+
+def _sh_rows(rng, d, n):
+    return [[rs(rng.randint(4, 60) / 8) for _ in range(d)] for _ in range(n)]
+
+
+def _sh_make(rng, out, d, kinds, klass=None):
+    return {"op": "sh_make", "out": out, "axes": [_sh_axis_spec(rng, k) for k in kinds], "klass": klass,
+            "via": rng.choice(["h", "fill_n"]), "rows": _sh_rows(rng, d, rng.randint(12, 40)),
+            "ws": None}
+
+
+def _sh_follow(rng, regs, nfree, kind):
+    """one later operation on a register of `regs`; (op, nfree)"""
+    h = rng.choice(regs)
+    us = [[rng.random() for _ in range(3)] for _ in range(rng.choice([1, 2, 5]))]
+    if kind == "fill":
+        return {"op": "sh_fill", "h": h, "u": us[:1], "single": True, "outside": rng.random() < 0.15}, nfree
+    if kind == "fill_n":
+        return {"op": "sh_fill", "h": h, "u": us, "outside": rng.random() < 0.15,
+                "ws": None if rng.random() < 0.6 else [rs(rng.choice([1, 2, 0.5])) for _ in us]}, nfree
+    if kind == "add":
+        o = rng.choice(regs)
+        if rng.random() < 0.5:
+            return {"op": "sh_add", "a": h, "b": o, "inplace": True}, nfree
+        return {"op": "sh_add", "a": h, "b": o, "out": nfree}, nfree + 1
+    if kind == "scale":
+        c, k = rng.choice([("2", "pyint"), ("3", "pyint"), ("1/2", "pyfloat"), ("2", "pyfloat")])
+        if rng.random() < 0.5:
+            return {"op": "sh_scale", "h": h, "c": c, "k": k, "inplace": True}, nfree
+        return {"op": "sh_scale", "h": h, "c": c, "k": k, "out": nfree, "reflected": rng.random() < 0.3}, nfree + 1
+    if kind == "merge":
+        if rng.random() < 0.5:
+            return {"op": "sh_merge", "h": h, "axis": rng.randrange(3), "amount": rng.choice([2, 2, 3]), "inplace": True}, nfree
+        return {"op": "sh_merge", "h": h, "axis": rng.randrange(3), "amount": rng.choice([2, 2, 3]), "out": nfree}, nfree + 1
+    if kind == "proj":
+        return {"op": "sh_proj", "h": h, "axis": rng.randrange(3), "out": nfree}, nfree + 1
+    if kind == "copy":
+        return {"op": "sh_copy", "h": h, "out": nfree}, nfree + 1
+    raise KeyError(kind)
+
+
+SH_FOLLOW = ["fill", "fill_n", "fill_n", "add", "add", "scale", "merge", "proj", "copy"]
+
+
+def sh_gen(rng):
+    d = rng.choice([1, 2, 2, 2, 2, 3])
+    kinds = [rng.choice(SH_KINDS) for _ in range(d)]
+    klass = rng.choice(SH_KLASS2) if d == 2 else (rng.choice(SH_KLASS3) if d == 3 else None)
+    ops = [_sh_make(rng, 0, d, kinds, klass)]
+    tags = [f"d:{d}", "klass:" + (klass or ("Histogram1D" if d == 1 else "default"))] + ["binning:" + k for k in sorted(set(kinds))]
+    nfree = 1
+    live = [0]                     # registers later operations may address
+    sel_regs = []
+    twin = None
+    for _ in range(rng.randint(2, 4)):
+        src = rng.choice(live)
+        op = _sh_sel_op(rng, src, nfree, d)
+        tags.append("sel:" + op["form"])
+        ops.append(op)
+        # forms the library is known to refuse (N-d: masks, index arrays, lists, Ellipsis, negative steps; 1-D: any step,
+        # an integer gives a pair): the later operations then go to the source, which must still be intact and usable
+        likely = op["form"] in (("stepped", "range", "int") if d > 1 else ("range", "mask", "arr", "list"))
+        sel_regs.append(nfree if likely else src)
+        if likely:
+            live.append(nfree)
+        nfree += 1
+        if likely and rng.random() < 0.35:
+            # the same selection once more (of a copy of the source): two results that can be added
+            twin = copy.deepcopy(op)
+            twin["out"] = nfree
+            ops.append(twin)
+            ops.append({"op": "sh_add", "a": nfree - 1, "b": nfree, "inplace": rng.random() < 0.5, "out": nfree + 1})
+            live.append(nfree)
+            nfree += 2
+        for _ in range(rng.randint(1, 3)):
+            kind = rng.choice(SH_FOLLOW)
+            tags.append("then:" + kind)
+            op2, nfree = _sh_follow(rng, [sel_regs[-1], sel_regs[-1], rng.choice(live)], nfree, kind)
+            ops.append(op2)
+            if "out" in op2:
+                live.append(op2["out"])
+    return {"kind": "histn", "sub": "selhist", "ops": ops, "tolerance": True,
+            "tags": ["stream:selhist", "stream:selhist:" + ("1d" if d == 1 else "nd")] + tags}
+
+
+def sh_grid():
+    """every binning kind x every selection form (on that axis of a 2-D / 3-D / 1-D histogram), each followed by a fill_n, an
+    addition of two equal selections and a merge (the same on every seed)"""
+    import random
+    out = []
+    n = 0
+    for kind in SH_KINDS:
+        for form in ["stepped", "range", "int", "neg_step", "mask", "arr", "ellipsis"]:
+            for d, axis in ((2, 0), (2, 1), (3, 1), (1, 0)):
+                if d == 3 and form not in ("stepped", "range"):
+                    continue
+                n += 1
+                rng = random.Random(f"C18:sh_grid:{n}")
+                kinds = [rng.choice(SH_KINDS) for _ in range(d)]
+                kinds[axis] = kind
+                ops = [_sh_make(rng, 0, d, kinds, None)]
+                sel = _sh_sel_op(rng, 0, 1, d, form=form, axis=axis)
+                twin = dict(copy.deepcopy(sel), out=2)
+                ops += [sel, twin,
+                        {"op": "sh_fill", "h": 1, "u": [[rng.random() for _ in range(3)] for _ in range(3)]},
+                        {"op": "sh_add", "a": 1, "b": 2, "out": 3},
+                        {"op": "sh_merge", "h": 2, "axis": axis, "amount": 2, "inplace": True},
+                        {"op": "sh_scale", "h": 1, "c": "2", "k": "pyint", "inplace": True}]
+                out.append({"kind": "histn", "sub": "selhist", "ops": ops, "tolerance": True,
+                            "tags": ["stream:selhist_grid", "binning:" + kind, "sel:" + form, f"d:{d}"]})
+    return out
+
+
+# ---- oracle
+def sh_wellformed(snap):
+    if "_snap_error" in snap:
+        return ["unreadable: the histogram's public attributes cannot be read: " + snap["_snap_error"]]
+    out = nf_wellformed(snap)
+    nb = [len(b) for b in snap["bins"]]
+    if snap["_hshape"] != snap["shape"]:
+        out.append(f"shape: h.shape says {snap['_hshape']}, frequencies have shape {snap['shape']}")
+    if snap["_hshape"] != nb or snap["_nbins"] != nb:
+        out.append(f"shape: h.shape = {snap['_hshape']}, bin_count of the binnings = {snap['_nbins']}, bins listed per axis = {nb}, "
+                   f"frequencies have shape {snap['shape']}")
+    return out
+
+
+def _sh_expected_shape(op, parent):
+    """numpy's shape of the selection when every sub-index is a slice / an integer in range (else None)"""
+    shape = parent["shape"]
+    subs = op["index"]
+    if op["how"] == "select":
+        ax = op["axis"] % max(len(shape), 1)
+        subs = [{"s": [None, None, None]}] * ax + list(subs)
+    if len(subs) > len(shape):
+        return None
+    idx = []
+    for i, j in enumerate(subs):
+        if isinstance(j, dict) and "s" in j:
+            if j["s"][2] is not None and j["s"][2] < 0:
+                return None
+            idx.append(slice(*j["s"]))
+        elif isinstance(j, int) and len(shape) > 1 and -shape[i] <= j < shape[i]:
+            idx.append(j)
+        else:
+            return None
+    return list(np.zeros(shape, dtype=bool)[tuple(idx)].shape)
+
+
+def sh_oracle(case, io):
+    from . import nd_parts
+    outs, ops = io["outs"], case["ops"]
+    fails = []
+    for k, op in enumerate(ops):
+        regs = outs[k]["regs"]
+        before = outs[k - 1]["regs"] if k else []
+        ret = outs[k]["ret"]
+        what = op["op"] + (" " + str(op.get("index")) if op["op"] == "sh_sel" else "")
+        for i, r in enumerate(regs):
+            if r is None:
+                continue
+            for w in sh_wellformed(r):
+                fails.append(f"illformed: after step {k} ({what}) register {i}: {w}")
+        if ret == "REFUSED":
+            for i, (x, y) in enumerate(zip(before, regs)):
+                if x is None or y is None or "_snap_error" in x or "_snap_error" in y:
+                    continue
+                if nd_parts._cells(x) != nd_parts._cells(y):
+                    fails.append(f"not_atomic: refused step {k} ({what}) changed contents of register {i}: {x['freq']} / {x['err2']} "
+                                 f"-> {y['freq']} / {y['err2']}")
+                if x["missed"] != y["missed"]:
+                    fails.append(f"not_atomic: refused step {k} ({what}) changed the missed count of register {i}: "
+                                 f"{x['missed']} -> {y['missed']}")
+                if x["dtype"] != y["dtype"] and not np.can_cast(np.dtype(x["dtype"]), np.dtype(y["dtype"])):
+                    fails.append(f"not_atomic: refused step {k} changed dtype {x['dtype']} -> {y['dtype']} (not a lossless promotion)")
+            if len(regs) > len(before) and any(r is not None for r in regs[len(before):]):
+                fails.append(f"not_atomic: refused step {k} ({what}) left a result behind")
+        elif op["op"] == "sh_sel" and op["h"] < len(before) and before[op["h"]] is not None and "_snap_error" not in before[op["h"]]:
+            exp = _sh_expected_shape(op, before[op["h"]])
+            res = regs[op["out"]] if op["out"] < len(regs) else None
+            if exp is not None and exp and res is not None and "_snap_error" not in res:
+                nb = [len(b) for b in res["bins"]]
+                if nb != exp or res["shape"] != exp:
+                    fails.append(f"sel_shape: step {k} ({what}) of a histogram of shape {before[op['h']]['shape']}: numpy's selection has "
+                                 f"shape {exp}, the result lists {nb} bins per axis over contents of shape {res['shape']}")
+        if len(fails) > 6:
+            break
+    return fails[:6]
+
+
+def sh_nontrivial(case, io):
+    """at least one accepted selection with a later accepted operation"""
+    outs = io["outs"]
+    first = next((k for k, (op, o) in enumerate(zip(case["ops"], outs)) if op["op"] == "sh_sel" and o["ret"] == "ok"), None)
+    return first is not None and any(o["ret"] == "ok" for o in outs[first + 1:])
+
+
+def sh_shrink(case):
+    """drop one operation (never the first), then rows of the data; operations on registers that do not exist are answered
+    REFUSED and change nothing, and all later operations take their points from the histogram they find"""
+    ops = case["ops"]
+    for k in range(len(ops) - 1, 0, -1):
+        c = copy.deepcopy(case)
+        del c["ops"][k]
+        yield c
+    rows = ops[0].get("rows") or []
+    if len(rows) > 4:
+        for part in (slice(0, len(rows) // 2), slice(len(rows) // 2, None)):
+            c = copy.deepcopy(case)
+            c["ops"][0]["rows"] = rows[part]
+            yield c
+
+
+def sh_neighbours(case):
+    """the same history with every selection's step changed (2 <-> 3 <-> none)"""
+    for k, op in enumerate(case["ops"]):
+        if op["op"] != "sh_sel":
+            continue
+        for i, j in enumerate(op["index"]):
+            if isinstance(j, dict) and "s" in j:
+                for st in (None, 2, 3):
+                    if st != j["s"][2]:
+                        c = copy.deepcopy(case)
+                        c["ops"][k]["index"][i]["s"][2] = st
+                        yield c
+
+
+# ---- stream:selhist_model -- the part of the class the Lean driver can express: plain ranges / integers (getitem, select) on
+# static (incl. gapped) and fixed-width (adaptive or not) axes inside histories of the generic N-d op language, followed by
+# fill / fill_n / imul / add / merge / projection / another selection on the results; model + nd_parts.c18_oracle
+def sm_gen(rng):
+    d = rng.choice([2, 2, 3])
+    axes, pairs_of = [], []
+    tags = ["stream:selhist_model", "nd", f"d:{d}"]
+    for a in range(d):
+        if rng.random() < 0.5:
+            w, tmin, cnt = rng.choice([1.0, 0.5, 2.0]), rng.randint(-2, 2), rng.randint(3, 5)
+            ad = rng.random() < 0.4
+            axes.append(gen1.fixed_json(w, tmin, cnt, 0.0, adaptive=ad))
+            pairs = [[(tmin + i) * w, (tmin + i + 1) * w] for i in range(cnt)]
+            tags.append("binning:fixed_width" + ("_adaptive" if ad else ""))
+        else:
+            nb = rng.randint(3, 5)
+            e = [float(rng.choice([0, 1, -2]))]
+            for _ in range(nb):
+                e.append(e[-1] + rng.choice([1.0, 0.5, 2.0]))
+            pairs = [[e[i], e[i + 1]] for i in range(nb)]
+            gap = rng.random() < 0.3
+            if gap:
+                pairs[1][0] += 0.25
+            axes.append(gen1.binning_json(pairs, ire=rng.random() < 0.7, form="static_obj"))
+            tags.append("binning:static" + ("_gapped" if gap else ""))
+        pairs_of.append(pairs)
+    n = _prod([len(p) for p in pairs_of])
+    ops = []
+    dt = rng.choice(["int64", "float64"])
+    for reg in (0, 1):
+        f = [rng.randint(0, 9) for _ in range(n)]
+        e = None if rng.random() < 0.5 else [rng.randint(0, 12) for _ in range(n)]
+        ops.append({"op": "of_arrays", "out": reg, "axes": axes, "freq": [rs(x) for x in f], "err2": None if e is None else [rs(x) for x in e],
+                    "missed": rs(rng.randint(0, 4)), "dtype": dt, "keep": rng.random() < 0.85, "names": [f"ax{i}" for i in range(d)]})
+    state = {0: pairs_of, 1: pairs_of}
+    nfree = 2
+
+    def sel_of(src, out):
+        ps = state[src]
+        ax = rng.randrange(len(ps))
+        m = len(ps[ax])
+        if len(ps) == 3 and rng.random() < 0.25:
+            j = rng.randrange(-m, m)
+            new = [p for i, p in enumerate(ps) if i != ax]
+            sub = j
+        else:
+            a = rng.randrange(0, m)
+            b = rng.randint(a + 1, m)
+            if rng.random() < 0.1:
+                b = a                                         # empty
+            new = [p if i != ax else p[a:b] for i, p in enumerate(ps)]
+            sub = {"s": [rng.choice([a, a - m]) if (a or rng.random() < 0.5) else None, b if (b < m or rng.random() < 0.5) else None]}
+            if sub["s"] == [None, None]:
+                # `select(axis, slice(None))` hands back the histogram itself: two registers would be one object, which the
+                # model's value registers cannot express (the oracle-only stream has such selections)
+                sub = {"s": [0, None]}
+        if rng.random() < 0.4:
+            op = {"op": "select", "h": src, "axis": ax, "index": sub, "out": out}
+        else:
+            op = {"op": "getitem", "h": src, "index": [{"s": [None, None]}] * ax + [sub], "out": out}
+        return op, new
+
+    for _ in range(rng.randint(1, 3)):
+        cands = [r for r, ps in state.items() if ps is not None and len(ps) >= 2 and all(len(p) >= 1 for p in ps)]
+        if not cands:
+            break
+        src = rng.choice(cands)
+        op, new = sel_of(src, nfree)
+        ops.append(op)
+        t = nfree
+        state[t] = new
+        nfree += 1
+        tags.append("sel:int" if not isinstance(op["index"] if op["op"] == "select" else op["index"][-1], dict) else "sel:range")
+        if src in (0, 1) and rng.random() < 0.4:
+            op2 = dict(copy.deepcopy(op), h=1 - src, out=nfree)
+            ops.append(op2)
+            ops.append({"op": "add", "a": t, "b": nfree, "out": nfree + 1})
+            state[nfree], state[nfree + 1] = new, new
+            nfree += 2
+            tags.append("then:add")
+        for _ in range(rng.randint(1, 3)):
+            ps = state[t]
+            if ps is None or any(len(p) == 0 for p in ps):
+                break
+            kind = rng.choice(["fill", "fill_n", "imul", "merge", "proj", "copy"])
+            tags.append("then:" + kind)
+            pt = lambda: [rs((lambda b: (b[0] + b[1]) / 2)(rng.choice(p))) for p in ps]
+            if kind == "fill":
+                ops.append({"op": "fill", "h": t, "v": pt(), "w": "1", "wk": "pyint", "default_w": False})
+            elif kind == "fill_n":
+                ops.append({"op": "fill_n", "h": t, "rows": [pt() for _ in range(rng.choice([1, 3]))], "ws": None, "wkind": None})
+            elif kind == "imul":
+                ops.append({"op": "imul", "h": t, "c": rng.choice(["2", "3"]), "k": "pyint"})
+            elif kind == "merge":
+                ops.append({"op": "merge", "h": t, "amount": 2, "axis": rng.randrange(len(ps)), "inplace": True, "maybe_refused": True})
+                state[t] = None
+            elif kind == "proj":
+                ops.append({"op": "projection", "h": t, "axes": [rng.randrange(len(ps))], "out": nfree})
+                state[nfree] = None
+                nfree += 1
+            else:
+                ops.append({"op": "copy", "h": t, "out": nfree, "with_freq": True})
+                state[nfree] = ps
+                nfree += 1
+    return {"kind": "histn", "ops": ops, "tags": tags, "tolerance": False, "sub": "nd"}
+
 
 class C18(Hist1Prop):
     ID = "C18"
@@ -689,12 +1323,24 @@ class C18(Hist1Prop):
             "normalize_bins with a bin empty in all members, NaN / inf given to the constructor or the setters, overflowing "
             "weight sums, inf - inf), followed by negative factors / divisors, too large subtractions, assignments and "
             "constructions with a negative entry beside NaN / inf (all to be refused, nothing changed, no finite entry or -inf "
-            "negative afterwards) mixed with accepted operations; plus a fixed grid source x refused operation in 1-D and 2-D")
+            "negative afterwards) mixed with accepted operations; plus a fixed grid source x refused operation in 1-D and 2-D. "
+            "stream:selhist (every 10th case, oracle only) + fixed grid binning kind x selection form: selections inside histories "
+            "on every binning kind (fixed_width adaptive or not / integer / pretty / numpy / static incl. gapped / exponential; "
+            "Histogram1D, Histogram2D, HistogramND, transformed N-d classes): stepped slices, ranges, integers, negative steps, "
+            "masks, index arrays, lists, Ellipsis, empty selections via H[...] and H.select, followed by fill / fill_n / + / += / * / "
+            "merge_bins / projection / copy / further selections on the results; every live histogram well-formed after every "
+            "step (frequencies.shape == errors2.shape == bins per axis == h.shape == bin_count of the binnings), slice selections "
+            "have numpy's shape, refused selections change nothing. stream:selhist_model (every 20th case, model + oracle): plain "
+            "ranges / integers on static and fixed-width axes inside generic N-d histories")
     FIELDS = {"bins", "freq", "err2", "under", "over", "inner", "total", "dtype", "keep"}
 
     def gen_case(self, rng, k, tier):
         if k % NF_SHARE == 7:
             return nf_gen(rng)
+        if k % 10 == SH_SHARE_K:
+            return sh_gen(rng)
+        if k % 20 == 5:
+            return sm_gen(rng)
         if k % 5 == 3:
             from . import nd_parts
             return nd_parts.c18_gen(rng)
@@ -719,18 +1365,23 @@ class C18(Hist1Prop):
         return self.FIELDS - {"total"} if "dtype_focus" in case.get("tags", []) else self.FIELDS
 
     def exhaustive_cases(self, tier):
-        return nf_grid()
+        return nf_grid() + sh_grid()
 
     def model_case(self, case, io):
         # contents of the Lean model are rationals: histories with NaN / inf contents are checked by the oracle only
-        return None if case.get("sub") == "nonfinite" else case
+        return None if case.get("sub") in ("nonfinite", "selhist") else case
 
     def neighbours(self, case):
+        if case.get("sub") == "selhist":
+            return sh_neighbours(case)
         return nf_neighbours(case) if case.get("sub") == "nonfinite" else []
 
     def shrink_candidates(self, case):
         if case.get("sub") == "nonfinite":
             yield from nf_shrink(case)
+            return
+        if case.get("sub") == "selhist":
+            yield from sh_shrink(case)
             return
         ops = case["ops"]
         for k in range(len(ops) - 1, 2, -1):
@@ -741,6 +1392,8 @@ class C18(Hist1Prop):
     def run_impl(self, case):
         if case.get("sub") == "nonfinite":
             return nf_run(case)
+        if case.get("sub") == "selhist":
+            return sh_run(case)
         if case.get("kind") == "histn":
             from .. import implnd
             outs, log = implnd.run(case)
@@ -765,6 +1418,8 @@ class C18(Hist1Prop):
     def oracle(self, case, io):
         if case.get("sub") == "nonfinite":
             return nf_oracle(case, io)
+        if case.get("sub") == "selhist":
+            return sh_oracle(case, io)
         if case.get("kind") == "histn":
             from . import nd_parts
             return nd_parts.c18_oracle(case, io)
@@ -823,6 +1478,8 @@ class C18(Hist1Prop):
     def nontrivial(self, case, io):
         if case.get("sub") == "nonfinite":
             return nf_nontrivial(case, io)
+        if case.get("sub") == "selhist":
+            return sh_nontrivial(case, io)
         rets = [o["ret"] for o in io["outs"][3:]]
         return "REFUSED" in rets and any(r != "REFUSED" for r in rets)
 
